@@ -371,3 +371,7 @@ impl TickMarker {
         TickMarker::Absolute(tick)
     }
 }
+
+#[cfg(any(kani, libtw2_verif))]
+#[path = "/verif/kani/demo_format.rs"]
+mod verif_kani;
